@@ -22,7 +22,10 @@ ANCHORS = [("deap/cma.py", ["StrategyOnePlusLambda", "StrategyMultiObjective", "
            ("deap/tools/indicator.py", ["hypervolume"]),
            ("deap/tools/emo.py", ["sortLogNondominated"])]
 LEVEL = "proof"
-RULE = ("histories of 1..300 generate/update rounds: (1+lambda) on sphere/ellipsoid/step (dims 2..6, lambda 1..8; "
+RULE = ("streams in this order: structured histories (success streaks, simultaneous constraint violations, sibling "
+        "survivors, plain Fitness with unevaluated offspring, MO default mu / more initial individuals than mu), exactly "
+        "singular constraint updates (inv raises), then histories of 1..300 generate/update rounds with parameter overrides "
+        "(d, ptarg, cp, cc, ccov/ccovp, ccovn, cconst, beta, pthresh): (1+lambda) on sphere/ellipsoid/step (dims 2..6, lambda 1..8; "
         "thorough dims ..10, lambda ..20), exhaustive elitism histories over fitness values {0,1,2}; MO on "
         "bi-sphere/ZDT-like/step objectives (mu 1..6, lambda = mu and != mu; thorough mu ..10, lambda ..20), direct "
         "_select on small grids with ties and duplicates, direct _rankOneUpdate with every sign pattern / tiny / zero "
@@ -31,8 +34,10 @@ RULE = ("histories of 1..300 generate/update rounds: (1+lambda) on sphere/ellips
         "direct case that reaches the update branch)")
 EXHAUSTIVE = {"quick": False, "thorough": False}
 TIME_BUDGET = {"quick": 48, "thorough": 840}
-TRUSTED = ["numpy.linalg.cholesky / numpy.linalg.inv (LAPACK): parameters of the model with the contracts A*A^T = C "
-           "(A lower triangular) and inv(M)*M = I; both contracts are checked numerically on every call",
+MIN_CASES = 500
+TRUSTED = ["numpy.linalg.cholesky / numpy.linalg.inv (LAPACK): parameters of the model with the contracts "
+           "'symmetric positive definite C -> lower-triangular A with A*A^T = C' and 'inv(M)*M = I, LinAlgError = update "
+           "ignored'; both contracts are checked numerically on every call, singular A' is forced (actsing stream)",
            "IEEE-754 rounding: theorems are over the reals; the Float instance of the same definitions is compared "
            "with numpy within relative tolerance 1e-9 (scaled by the condition number for the inverse factors)",
            "tools.sortLogNondominated (property C04) and the hypervolume indicator (property C15) enter the model as "
@@ -228,6 +233,25 @@ class Fail(Exception):
     pass
 
 
+def over(x, tol):
+    """x exceeds tol — NaN-safe: a NaN or infinite error counts as exceeding."""
+    return not (x <= tol)
+
+
+def case_tol(cond_max):
+    """relative tolerance of the model-vs-numpy comparison of a history: two correct evaluation orders of the
+    factor / inverse-factor updates differ by about cond * eps (cancellation), so it scales with the worst condition
+    number met (1e-9 up to cond 1e5, never above 1e-3)"""
+    return max(TOL, min(1e-3, 1e-14 * cond_max))
+
+
+def inv_tol(cnd, r):
+    """tolerance for inv*A = I: scaled by the condition number and the number of rounds, capped so that a
+    singular / non-finite factor can never make the check vacuous"""
+    t = 1e-9 + 1e-13 * cnd * (r + 1)
+    return t if t <= 0.05 else 0.05
+
+
 def sample_round(r, nrounds, heavy=False):
     """rounds whose pre/post state is also sent to the Lean model (the oracle runs on every round)"""
     if heavy:
@@ -309,10 +333,10 @@ def eval_oneplus(d):
             if list(par) != g or pw != w or tuple(par.fitness.values) != single_objective(obj, par):
                 raise Fail("round %d: parent genome %r does not match the genome that obtained its fitness" % (r, list(par)))
             replaced = strategy.parent is not pre["parent"]
-            anybetter = any(fit_ge(w_, pre["pw"]) for w_ in popw)
-            if replaced != anybetter:
-                raise Fail("round %d: parent %s although %s offspring is at least as good"
-                           % (r, "replaced" if replaced else "kept", "an" if anybetter else "no"))
+            # the statement: replaced ONLY by an offspring at least as good (whether an equally good offspring
+            # replaces the parent is the code's choice; the model comparison below follows the code's `<=`)
+            if replaced and not any(fit_ge(w_, pre["pw"]) and w_ == pw for w_ in popw):
+                raise Fail("round %d: parent replaced by something that is not an offspring at least as good" % r)
             n_repl += replaced
             n_keep += (not replaced)
             if not (0.0 <= strategy.psucc <= 1.0):
@@ -334,13 +358,13 @@ def eval_oneplus(d):
                     pc = (1 - strategy.cc) * pc
                     C = (1 - strategy.ccov) * C + strategy.ccov * (numpy.outer(pc, pc) + strategy.cc * (2 - strategy.cc) * C)
             sg = pre["sigma"] * math.exp((ps - strategy.ptarg) / (strategy.d * (1 - strategy.ptarg)))
-            if relerr(strategy.C, C) > 1e-11 or relerr(strategy.pc, pc) > 1e-11 and numpy.abs(pc).max() > 1e-300:
+            if over(relerr(strategy.C, C), 1e-11) or over(relerr(strategy.pc, pc), 1e-11) and numpy.abs(pc).max() > 1e-300:
                 raise Fail("round %d: covariance/path do not follow the success rule (rel err C %.3g, pc %.3g)"
                            % (r, relerr(strategy.C, C), relerr(strategy.pc, pc)))
-            if abs(strategy.psucc - ps) > 1e-12 or abs(strategy.sigma - sg) > 1e-11 * sg:
+            if over(abs(strategy.psucc - ps), 1e-12) or over(abs(strategy.sigma - sg), 1e-11 * sg):
                 raise Fail("round %d: psucc/sigma do not follow the success rule" % r)
             A = strategy.A
-            if numpy.abs(numpy.triu(A, 1)).max() != 0.0 or relerr(A.dot(A.T), strategy.C) > 1e-9:
+            if numpy.abs(numpy.triu(A, 1)).max() != 0.0 or over(relerr(A.dot(A.T), strategy.C), 1e-9):
                 raise Fail("round %d: A is not a lower Cholesky factor of C (rel err %.3g)" % (r, relerr(A.dot(A.T), strategy.C)))
             # ---------------- model line ----------------
             sorted_ids = [i._id for i in pop]
@@ -491,7 +515,7 @@ def check_selection(mu, cands_w, chosen_pos, notchosen_pos, calls, ref_seen):
         pts = [(-cands_w[i][0], -cands_w[i][1]) for i in pos]
         total = hv2d(pts, ref)
         contrib = [total - hv2d(pts[:j] + pts[j + 1:], ref) for j in range(len(pts))]
-        if contrib[idx] > min(contrib) + 1e-9 * max(1.0, abs(total)):
+        if over(contrib[idx], min(contrib) + 1e-9 * max(1.0, abs(total))):
             return "individual discarded with hypervolume contribution %.6g, least is %.6g" % (contrib[idx], min(contrib))
         cur.discard(pos[idx])
     if cur != set(i for i in front if i in ch):
@@ -539,6 +563,8 @@ def eval_mo(d):
     kargs = dict(d.get("kargs", {}))
     if d.get("mu_given", True):
         kargs["mu"] = mu
+    else:
+        mu = len(pop0)                      # the constructor's default
     strategy = cma.StrategyMultiObjective(pop0, d["sigma"], lambda_=lam, **kargs)
     spy = SelectSpy(strategy)
     r1calls = []
@@ -556,6 +582,7 @@ def eval_mo(d):
     expect.append(" ".join(fbits(x) for x in (dflt.d, dflt.ptarg, dflt.cp, dflt.cc, dflt.ccov, dflt.pthresh)))
     orc = None
     n_off = n_ind = n_skip = 0
+    mo_cond_max = 1.0
     S = strategy
     try:
         for r in range(nrounds):
@@ -578,7 +605,7 @@ def eval_mo(d):
                     raise Fail("round %d: offspring tag %r" % (r, o._ps))
                 j = o._ps[1]
                 want = numpy.array(pre["px"][j]) + pre["sigmas"][j] * pre["A"][j].dot(z)
-                if relerr(list(o), want) > 1e-12:
+                if over(relerr(list(o), want), 1e-12):
                     raise Fail("round %d: offspring is not parent[%d] + sigma*A*z" % (r, j))
             if lam == S.mu and [t[1] for t in tags] != list(range(lam)):
                 raise Fail("round %d: lambda == mu but offspring parents are %r" % (r, tags))
@@ -629,7 +656,7 @@ def eval_mo(d):
                             or not numpy.array_equal(S.A[i], pre["A"][j]) or not numpy.array_equal(S.pc[i], pre["pc"][j]) \
                             or not numpy.array_equal(S.invCholesky[i], pre["inv"][j]):
                         raise Fail("round %d: surviving parent %d (new index %d) does not keep its own A/invCholesky/pc" % (r, j, i))
-                    if abs(S.psucc[i] - adj_ps[j]) > 1e-12 or abs(S.sigmas[i] - adj_sg[j]) > 1e-11 * adj_sg[j]:
+                    if over(abs(S.psucc[i] - adj_ps[j]), 1e-12) or over(abs(S.sigmas[i] - adj_sg[j]), 1e-11 * adj_sg[j]):
                         raise Fail("round %d: surviving parent %d (new index %d): psucc/sigma %r/%r, expected %r/%r"
                                    % (r, j, i, S.psucc[i], S.sigmas[i], adj_ps[j], adj_sg[j]))
                 else:                               # an offspring of parent j enters
@@ -641,10 +668,10 @@ def eval_mo(d):
                         pc = (1 - S.cc) * pre["pc"][j] + math.sqrt(S.cc * (2 - S.cc)) * (numpy.array(offx[p_]) - numpy.array(pre["px"][j])) / pre["sigmas"][j]
                     else:
                         pc = (1 - S.cc) * pre["pc"][j]
-                    if abs(S.psucc[i] - ps) > 1e-12 or abs(S.sigmas[i] - sg) > 1e-11 * sg:
+                    if over(abs(S.psucc[i] - ps), 1e-12) or over(abs(S.sigmas[i] - sg), 1e-11 * sg):
                         raise Fail("round %d: new parent %d (offspring of %d): psucc/sigma %r/%r do not derive from the parent's "
                                    "pre-update values (expected %r/%r)" % (r, i, j, S.psucc[i], S.sigmas[i], ps, sg))
-                    if relerr(S.pc[i], pc) > 1e-10 and numpy.abs(pc).max() > 1e-290:
+                    if over(relerr(S.pc[i], pc), 1e-10) and not (numpy.abs(pc).max() <= 1e-290):
                         raise Fail("round %d: new parent %d (offspring of %d): evolution path does not derive from parent %d's path" % (r, i, j, j))
                     Aj = pre["A"][j]
                     AAt, new = Aj.dot(Aj.T), S.A[i].dot(S.A[i].T)
@@ -656,12 +683,15 @@ def eval_mo(d):
                     sol = numpy.linalg.lstsq(G, new.ravel(), rcond=None)[0]
                     res = numpy.abs(G.dot(sol) - new.ravel()).max() / max(numpy.abs(new).max(), 1e-300)
                     if S.A[i] is not pre["Aobj"][j] and not numpy.array_equal(S.A[i], Aj):
-                        if res > 1e-9 + 1e-14 * cnd or sol[0] <= 0:
+                        if over(res, inv_tol(max(cnd, mo_cond_max), r)) or not (sol[0] > 0):
                             raise Fail("round %d: new parent %d: A A^T is not alpha*(A_j A_j^T) + beta*pc pc^T with alpha>0 "
                                        "(residual %.3g, alpha %.4g)" % (r, i, res, sol[0]))
                 cndi = numpy.linalg.cond(S.A[i])
+                if not (cndi < COND_LIMIT):
+                    continue
+                mo_cond_max = max(mo_cond_max, cndi)
                 e = numpy.abs(S.invCholesky[i].dot(S.A[i]) - numpy.eye(dim)).max()
-                if e > 1e-9 + 1e-13 * cndi * (r + 1):
+                if over(e, inv_tol(mo_cond_max, r)):
                     raise Fail("round %d: invCholesky[%d] is not the inverse of A[%d]: max|inv*A - I| = %.3g (cond %.3g)" % (r, i, i, e, cndi))
             for (invCh, A, alpha, beta, v, out) in r1calls:
                 inv2, A2 = out
@@ -673,7 +703,7 @@ def eval_mo(d):
                         raise Fail("round %d: covariance adaptation skipped although |A^-1 v| = %.3g (v = %r)" % (r, numpy.abs(w).max(), list(v)))
                 else:
                     want = alpha * A.dot(A.T) + beta * numpy.outer(v, v)
-                    if relerr(A2.dot(A2.T), want) > 1e-9 + 1e-13 * cnd * (r + 1) or alpha <= 0:
+                    if over(relerr(A2.dot(A2.T), want), inv_tol(max(cnd, mo_cond_max), r)) or not (alpha > 0):
                         raise Fail("round %d: rank-one update: A'A'^T differs from alpha*AA^T + beta*vv^T (rel err %.3g, alpha %.4g, v = %r)"
                                    % (r, relerr(A2.dot(A2.T), want), alpha, list(v)))
             if any(not (0.0 <= p <= 1.0) for p in S.psucc) or any(not (s > 0 and math.isfinite(s)) for s in S.sigmas):
@@ -694,7 +724,7 @@ def eval_mo(d):
     except Fail as e:
         orc = str(e)
     tag = "mo/%s/d%d/mu%d/l%d/%s" % (obj, dim, mu, lam, "eq" if lam == mu else "ne")
-    return Case(d, lines, expect, orc, tag=tag, nontrivial=(n_off > 0 and n_ind > 0), tol=TOL)
+    return Case(d, lines, expect, orc, tag=tag, nontrivial=(n_off > 0 and n_ind > 0), tol=case_tol(mo_cond_max))
 
 
 def eval_mosel(d):
@@ -752,9 +782,9 @@ def eval_r1(d):
         e1 = relerr(A2.dot(A2.T), want)
         e2 = numpy.abs(inv2.dot(A2) - numpy.eye(n)).max()
         cnd = numpy.linalg.cond(A2)
-        if e1 > 1e-9:
+        if over(e1, 1e-9):
             orc = "A'A'^T differs from alpha*AA^T + beta*vv^T (rel err %.3g, v = %r)" % (e1, list(v))
-        elif e2 > 1e-9 + 1e-13 * cnd:
+        elif over(e2, inv_tol(cnd, 0)):
             orc = "invCholesky' is not the inverse of A' (max|inv*A - I| = %.3g)" % e2
     lines = ["C14 mo-r1 %s %s %s %s %s" % (fm(invA), fm(A), fbits(alpha), fbits(beta), fv(v))]
     sign = "neg" if all(x < 0 for x in d["w"]) else "pos" if all(x > 0 for x in d["w"]) else "zero" if not any(d["w"]) else "mixed"
@@ -766,6 +796,87 @@ def eval_r1(d):
 # ----------------------------------------------------------------------------------------
 # active (1+lambda)
 # ----------------------------------------------------------------------------------------
+
+def act_state(S):
+    p = S.parent
+    has = hasattr(p, "fitness")
+    return dict(parent=p, pid=(p._id if has else 0), pw=(tuple(p.fitness.wvalues) if has else None), px=[float(x) for x in p],
+                sigma=float(S.sigma), A=S.A.copy(), invA=S.invA.copy(), pc=S.pc.copy(), psucc=float(S.psucc),
+                iIR=[int(i) for i in S.i_I_R], cvecs=(None if S.constraint_vecs is None else S.constraint_vecs.copy()),
+                anc=[tuple(f.wvalues) for f in S.ancestors_fitness])
+
+
+def fmt_act_state(st):
+    return " ".join([str(st["pid"]), "none" if st["pw"] is None else fv(st["pw"]), fv(st["px"]), fbits(st["sigma"]),
+                     fbits(st["psucc"]), fv(st["pc"]), fm(st["A"]), fm(st["invA"]),
+                     "none" if st["cvecs"] is None else fm(st["cvecs"]), fm(st["anc"]), il(st["iIR"])])
+
+
+def act_upd_line(S, lam, pre, steps, ids, popfit, popcv, popx, popy, popz, invs):
+    """request line of one active update; popcv entries: tuple of flags, or None = the fitness has no
+    constraint_violation attribute"""
+    prm = "%d %s" % (lam, " ".join(fbits(x) for x in (S.cc, S.ccovp, S.ccovn, S.cconst, S.pthresh, S.d, S.ptarg,
+                                                     S.cp, S.beta)))
+    fits = ";".join("none" if f is None else fv(f) for f in popfit)
+    cvs = ";".join("x" if cv is None else (",".join("1" if c else "0" for c in cv) or "-") for cv in popcv)
+    invtape = "|".join("none" if res is None else fm(res) for (_m, res) in invs) or "-"
+    return "C14 act-upd %s %d %s %s %s %s %s %s %s %s %s %s %s %s %s %s %s %s %s %s" % (
+        prm, pre["pid"], "none" if pre["pw"] is None else fv(pre["pw"]), fv(pre["px"]), fbits(pre["sigma"]),
+        fm(pre["A"]), fm(pre["invA"]), fv(pre["pc"]), fbits(pre["psucc"]), fv(steps), il(pre["iIR"]),
+        "none" if pre["cvecs"] is None else fm(pre["cvecs"]), fm(pre["anc"]),
+        il(ids), fits, cvs, fm(popx), fm(popy), fm(popz), invtape)
+
+
+def eval_actsing(d):
+    """Constraint update whose A' is exactly singular: numpy.linalg.inv raises LinAlgError and the update must be
+    ignored (A and invA stay a consistent pair).  A' = A - beta * v v^T / |v|^2 with A = I, beta = 1."""
+    n = d["dim"]
+    rng = random.Random(0)
+    Ind = IND["con"]
+    if d["parent_fit"]:
+        parent = Ind(d["x0"])
+        parent.fitness.values = single_objective("sphere", parent)
+        parent._id = 0
+    else:
+        parent = numpy.array(d["x0"], dtype=float)
+    S = cma.StrategyActiveOnePlusLambda(parent, 0.5, [0.0] * n, lambda_=len(d["ys"]), beta=d["beta"])
+    pop, popfit, popcv = [], [], []
+    for k, (y, flags) in enumerate(zip(d["ys"], d["flags"])):
+        y = numpy.array(y, dtype=float)
+        ind = Ind(numpy.array(d["x0"], dtype=float) + 0.5 * y)
+        ind._y, ind._z, ind._id = y.copy(), y.copy(), k + 1
+        if any(flags):
+            ind.fitness.constraint_violation = tuple(bool(f) for f in flags)
+            popfit.append(None)
+        else:
+            ind.fitness.values = single_objective("sphere", ind)
+            ind.fitness.constraint_violation = tuple(bool(f) for f in flags)
+            popfit.append(tuple(ind.fitness.wvalues))
+        popcv.append(tuple(bool(f) for f in flags))
+        pop.append(ind)
+    pre = act_state(S)
+    import warnings
+    with NpExtra(rng) as ex, warnings.catch_warnings():
+        warnings.simplefilter("ignore")
+        S.update(pop)
+    post = act_state(S)
+    raised = any(res is None for (_m, res) in ex.invs)
+    cnd = numpy.linalg.cond(S.A)
+    orc = None
+    if raised or cnd < COND_LIMIT:
+        e = numpy.abs(S.invA.dot(S.A) - numpy.eye(n)).max()
+        if not numpy.isfinite(S.A).all() or not numpy.isfinite(S.invA).all() or over(e, inv_tol(cnd, 0)):
+            orc = ("after a constraint update whose matrix inversion %s, invA is not the inverse of A: max|invA*A - I| = %.3g "
+                   "(cond(A) = %.3g)" % ("raised LinAlgError" if raised else "succeeded", e, cnd))
+    lines = [act_upd_line(S, len(pop), pre, [0.0] * n, [i._id for i in pop], popfit, popcv, [list(i) for i in pop],
+                          [i._y for i in pop], [i._z for i in pop], ex.invs)]
+    valid_sorted = [i._id for i in sorted([p_ for p_, f in zip(pop, popfit) if f is not None],
+                                          key=lambda i: i.fitness, reverse=True)]
+    lsucc = sum(1 for f in popfit if f is not None and (pre["pw"] is None or fit_ge(f, pre["pw"])))
+    expect = [fmt_act_state(post) + " %s %d" % (il(valid_sorted), lsucc)]
+    return Case(d, lines, expect, orc, tag="actsing/d%d/%s" % (n, "raised" if raised else "inverted"),
+                nontrivial=raised, tol=TOL)
+
 
 def eval_active(d):
     dim, lam, nrounds = d["dim"], d["lam"], d["rounds"]
@@ -795,23 +906,12 @@ def eval_active(d):
     nid, orc = 1, None
     n_repl = n_keep = n_neg = n_inf = 0
     neg_seen = n_event_lines = 0
+    cond_max = 1.0
     steps = numpy.array(d["steps"], dtype=float)
-
-    def state():
-        p = S.parent
-        has = hasattr(p, "fitness")
-        return dict(parent=p, pid=(p._id if has else 0), pw=(tuple(p.fitness.wvalues) if has else None), px=[float(x) for x in p],
-                    sigma=float(S.sigma), A=S.A.copy(), invA=S.invA.copy(), pc=S.pc.copy(), psucc=float(S.psucc),
-                    iIR=[int(i) for i in S.i_I_R], cvecs=(None if S.constraint_vecs is None else S.constraint_vecs.copy()),
-                    anc=[tuple(f.wvalues) for f in S.ancestors_fitness])
-
-    def fmt_state(st):
-        return " ".join([str(st["pid"]), "none" if st["pw"] is None else fv(st["pw"]), fv(st["px"]), fbits(st["sigma"]),
-                         fbits(st["psucc"]), fv(st["pc"]), fm(st["A"]), fm(st["invA"]),
-                         "none" if st["cvecs"] is None else fm(st["cvecs"]), fm(st["anc"]), il(st["iIR"])])
+    plain = not (cons or d.get("confit"))
     try:
         for r in range(nrounds):
-            pre = state()
+            pre = act_state(S)
             intmut = []
             real_im = S._integer_mutation
 
@@ -828,15 +928,15 @@ def eval_active(d):
             if len(pop) != lam:
                 raise Fail("round %d: generate returned %d individuals" % (r, len(pop)))
             for i, ind in enumerate(pop):
-                if relerr(ind._y, pre["A"].dot(z[i])) > 1e-12 or not numpy.array_equal(ind._z, z[i]):
+                if over(relerr(ind._y, pre["A"].dot(z[i])), 1e-12) or not numpy.array_equal(ind._z, z[i]):
                     raise Fail("round %d: stored mutation step _y is not A*z" % r)
                 want = numpy.array(pre["px"]) + pre["sigma"] * ind._y + steps * rint[i]
                 for c in range(dim):
                     if steps[c] > 0:
                         q = list(ind)[c] / steps[c]
-                        if abs(q - round(q)) > 1e-9 or abs(list(ind)[c] - want[c]) > steps[c] / 2 + 1e-9:
+                        if over(abs(q - round(q)), 1e-9) or over(abs(list(ind)[c] - want[c]), steps[c] / 2 + 1e-9):
                             raise Fail("round %d: integer coordinate %d = %r is not the nearest multiple of the step %r" % (r, c, list(ind)[c], steps[c]))
-                    elif abs(list(ind)[c] - want[c]) > 1e-12 * max(1.0, abs(want[c])):
+                    elif over(abs(list(ind)[c] - want[c]), 1e-12 * max(1.0, abs(want[c]))):
                         raise Fail("round %d: offspring is not parent + sigma*A*z" % r)
             if r < 4 or rint.any():
                 if rint.any() or pre["iIR"]:
@@ -852,6 +952,11 @@ def eval_active(d):
                 ind._id = nid
                 nid += 1
                 viol = tuple(bool(numpy.dot(a, list(ind)) < b) for a, b in cons)
+                skipped = plain and rng.random() < d.get("skip", 0.0)      # left unevaluated, no constraint_violation at all
+                if skipped:
+                    popfit.append(None)
+                    popcv.append(None)
+                    continue
                 if not any(viol):
                     ind.fitness.values = single_objective(obj, ind)
                     evaluated[ind._id] = (list(ind), tuple(ind.fitness.wvalues))
@@ -882,7 +987,7 @@ def eval_active(d):
             with NpExtra(rng) as ex2:
                 S.update(pop)
             S._rank1update = real_r1
-            post = state()
+            post = act_state(S)
             # ---------------- oracle ----------------
             anyvalid = any(f is not None for f in popfit)
             if anyvalid or pre["pw"] is not None:
@@ -896,16 +1001,23 @@ def eval_active(d):
                 if g != list(S.parent) or w != post["pw"]:
                     raise Fail("round %d: parent genome does not match the individual that obtained its fitness" % r)
             replaced = S.parent is not pre["parent"]
-            better = any(f is not None and (pre["pw"] is None or fit_ge(f, pre["pw"])) for f in popfit)
-            if replaced != better:
-                raise Fail("round %d: parent %s although %s valid offspring is at least as good" % (r, "replaced" if replaced else "kept", "a" if better else "no"))
+            if replaced and not any(f is not None and f == post["pw"] and (pre["pw"] is None or fit_ge(f, pre["pw"]))
+                                    for f in popfit):
+                raise Fail("round %d: parent replaced by something that is not a valid offspring at least as good" % r)
             n_repl += replaced
             n_keep += (not replaced)
             if not (0.0 <= S.psucc <= 1.0) or not (S.sigma > 0 and math.isfinite(S.sigma)):
                 raise Fail("round %d: psucc=%r sigma=%r out of range" % (r, S.psucc, S.sigma))
             cnd = numpy.linalg.cond(S.A)
+            raised = any(res is None for (_m, res) in ex2.invs)
+            if not (cnd < COND_LIMIT) and not raised:
+                break                   # outside the checked regime (and no update was declared "ignored")
+            # rounding errors of invA are inherited from the worst-conditioned factor met so far (invA is only ever
+            # updated incrementally), so the tolerance scales with the running maximum of cond(A) and of cond(A')
+            cond_max = max([cond_max, cnd if cnd < COND_LIMIT else 0.0] +
+                           [c_ for c_ in (numpy.linalg.cond(m_) for (m_, res_) in ex2.invs if res_ is not None) if c_ < COND_LIMIT])
             e = numpy.abs(S.invA.dot(S.A) - numpy.eye(dim)).max()
-            if e > 1e-9 + 1e-13 * cnd * (r + 1):
+            if over(e, inv_tol(cond_max, r)) or not numpy.isfinite(S.A).all() or not numpy.isfinite(S.invA).all():
                 raise Fail("round %d: invA is not the inverse of A: max|invA*A - I| = %.3g (cond %.3g)" % (r, e, cnd))
             for (A0, i0, individual, p_succ, A1, pc1) in r1:
                 if numpy.array_equal(A0, A1):
@@ -920,41 +1032,33 @@ def eval_active(d):
                     if best is None or res < best[0]:
                         best = (res, sol, nm)
                 c0 = numpy.linalg.cond(A0)
-                if best[0] > 1e-9 + 1e-13 * c0 * (r + 1) or best[1][0] <= 0:
+                if over(best[0], inv_tol(max(c0, cond_max), r)) or not (best[1][0] > 0):
                     raise Fail("round %d: covariance adaptation is not alpha*AA^T + beta*uu^T (u = path or step): residual %.3g, alpha %.4g"
                                % (r, best[0], best[1][0]))
                 if best[2] == "step" and best[1][1] < 0:
                     n_neg += 1
             for (mat, res) in ex2.invs:
                 n_inf += 1
-                if res is not None and numpy.abs(res.dot(mat) - numpy.eye(dim)).max() > 1e-9 + 1e-13 * numpy.linalg.cond(mat):
+                if res is not None and numpy.linalg.cond(mat) < COND_LIMIT and \
+                        over(numpy.abs(res.dot(mat) - numpy.eye(dim)).max(), inv_tol(numpy.linalg.cond(mat), 0)):
                     raise Fail("round %d: numpy.linalg.inv broke its contract" % r)
             # ---------------- model line ----------------
             event = bool(ex2.invs) or n_neg > neg_seen
             neg_seen = n_neg
             if sample_round(r, nrounds, dim * dim > 40) or (event and n_event_lines < 12):
                 n_event_lines += event
-                prm = "%d %s" % (lam, " ".join(fbits(x) for x in (S.cc, S.ccovp, S.ccovn, S.cconst, S.pthresh, S.d, S.ptarg,
-                                                                 S.cp, S.beta)))
-                fits = ";".join("none" if f is None else fv(f) for f in popfit)
-                cvs = ";".join((",".join("1" if c else "0" for c in cv) or "-") for cv in popcv)
-                invtape = "|".join("none" if res is None else fm(res) for (_m, res) in ex2.invs) or "-"
-                lines.append("C14 act-upd %s %d %s %s %s %s %s %s %s %s %s %s %s %s %s %s %s %s %s %s" % (
-                    prm, pre["pid"], "none" if pre["pw"] is None else fv(pre["pw"]), fv(pre["px"]), fbits(pre["sigma"]),
-                    fm(pre["A"]), fm(pre["invA"]), fv(pre["pc"]), fbits(pre["psucc"]), fv(steps), il(pre["iIR"]),
-                    "none" if pre["cvecs"] is None else fm(pre["cvecs"]), fm(pre["anc"]),
-                    il(ids), fits, cvs, fm(popx), fm(popy), fm(popz), invtape))
+                lines.append(act_upd_line(S, lam, pre, steps, ids, popfit, popcv, popx, popy, popz, ex2.invs))
                 valid_sorted = [i._id for i in sorted([p for p, f in zip(pop, popfit) if f is not None],
                                                       key=lambda i: i.fitness, reverse=True)]
                 lsucc = sum(1 for f in popfit if f is not None and (pre["pw"] is None or fit_ge(f, pre["pw"])))
-                expect.append(fmt_state(post) + " %s %d" % (il(valid_sorted), lsucc))
+                expect.append(fmt_act_state(post) + " %s %d" % (il(valid_sorted), lsucc))
             if cnd >= COND_LIMIT:
                 break
     except Fail as e:
         orc = str(e)
     tag = "act/%s/d%d/l%d/c%d/%s%s%s" % (obj, dim, lam, len(cons), "int" if any(s > 0 for s in d["steps"]) else "cont",
                                         "/neg" if n_neg else "", "/inf" if n_inf else "")
-    return Case(d, lines, expect, orc, tag=tag, nontrivial=(n_repl > 0 and n_keep > 0), tol=max(TOL, 1e-9))
+    return Case(d, lines, expect, orc, tag=tag, nontrivial=(n_repl > 0 and n_keep > 0), tol=case_tol(cond_max))
 
 
 # ----------------------------------------------------------------------------------------
@@ -977,6 +1081,8 @@ def evaluate(d):
             return eval_r1(d)
         if k == "act":
             return eval_active(d)
+        if k == "actsing":
+            return eval_actsing(d)
     finally:
         numpy.seterr(**old)
     raise ValueError(k)
@@ -995,60 +1101,24 @@ def pick_rounds(rng, thorough, long_ok=True):
     return rng.randint(61, 300)
 
 
-def generate(tier, rng, mult):
-    thorough = tier == "thorough"
-    dmax, lmax, mumax = (10, 20, 10) if thorough else (6, 8, 6)
-    # -- exhaustive elitism histories over fitness values {0,1,2}
-    shapes = [(1, 3), (2, 2), (3, 1)] + ([(3, 2), (2, 3), (1, 5)] if thorough else [])
-    for lam, nr in shapes:
-        for weight in (-1, 1):
-            for p0 in (0, 1, 2):
-                for flat in itertools.product((0, 1, 2), repeat=lam * nr):
-                    if not thorough and lam * nr > 4 and rng.random() < 0.5:
-                        continue
-                    yield {"k": "elit", "lam": lam, "weight": weight, "p0": p0,
-                           "hist": [list(flat[i * lam:(i + 1) * lam]) for i in range(nr)]}
-    # -- direct rank-one updates: every sign pattern in dims 2,3; tiny / zero vectors
-    for n in (2, 3):
-        for signs in itertools.product((-1.0, 0.0, 1.0), repeat=n):
-            for scale in (1.0, 1e-3, 1e-19, 1e-21, 1e-25):
-                for (alpha, beta) in ((0.8, 0.2), (1.05, 0.2)):
-                    yield {"k": "r1", "dim": n, "w": [s * (1 + 0.5 * i) for i, s in enumerate(signs)], "scale": scale,
-                           "alpha": alpha, "beta": beta, "mix": 2, "seed": rng.randrange(1 << 30)}
-    for _ in range((300 if thorough else 60) * mult):
-        n = rng.randint(2, dmax)
-        w = [rng.choice((-1, 1)) * rng.uniform(0.1, 2.0) if rng.random() < 0.85 else 0.0 for _ in range(n)]
-        if rng.random() < 0.3:
-            w = [-abs(x) for x in w]
-        ccov = 2.0 / (n * n + 6.0)
-        yield {"k": "r1", "dim": n, "w": w, "scale": rng.choice((1.0, 1.0, 1e-6, 1e-12, 3e-20, 1e-22)),
-               "alpha": rng.choice((1 - ccov, 1 - ccov + 0.75)), "beta": ccov, "mix": rng.randint(0, 4),
-               "seed": rng.randrange(1 << 30)}
-    # -- direct _select on small grids (ties, duplicates, dominated points), every mu
-    grid = [(a, b) for a in range(3) for b in range(3)]
-    for n in (2, 3, 4):
-        combos = list(itertools.product(grid, repeat=n))
-        if n == 4 and not thorough:
-            combos = rng.sample(combos, 400)
-        elif n == 3 and not thorough:
-            combos = rng.sample(combos, 300)
-        for pts in combos:
-            for mu in range(1, n + 1):
-                yield {"k": "mosel", "mu": mu, "pts": [list(p) for p in pts]}
-    for _ in range((1500 if thorough else 150) * mult):
-        n = rng.randint(3, 14)
-        style = rng.random()
-        if style < 0.4:      # one big non-dominated front
-            xs = sorted(rng.sample(range(40), n))
-            pts = [[x / 4.0, (40 - x) / 4.0 + rng.choice((0, 0, 0.25))] for x in xs]
-        elif style < 0.7:    # layered fronts
-            pts = [[rng.randint(0, 5) / 2.0, rng.randint(0, 5) / 2.0] for _ in range(n)]
-        else:
-            pts = [[round(rng.uniform(0, 3), 2), round(rng.uniform(0, 3), 2)] for _ in range(n)]
-        if rng.random() < 0.3:
-            pts[rng.randrange(n)] = list(pts[rng.randrange(n)])     # duplicate
-        yield {"k": "mosel", "mu": rng.randint(1, n + 1), "pts": pts}
-    # -- structured histories aimed at state carried between rounds
+def rand_kargs(rng, kind):
+    """Parameter overrides inside the ranges the strategies document (not only the defaults are exercised)."""
+    if rng.random() < 0.6:
+        return {}
+    pool = {"d": lambda: round(rng.uniform(0.5, 4.0), 3), "ptarg": lambda: round(rng.uniform(0.05, 0.5), 3),
+            "cp": lambda: round(rng.uniform(0.02, 0.9), 3), "cc": lambda: round(rng.uniform(0.05, 1.0), 3),
+            "pthresh": lambda: rng.choice([0.0, 0.2, 0.3, 0.44, 1.1])}
+    if kind == "act":
+        pool.update({"ccovp": lambda: round(rng.uniform(0.01, 0.4), 3), "ccovn": lambda: round(rng.uniform(0.01, 0.5), 3),
+                     "cconst": lambda: round(rng.uniform(0.05, 0.9), 3), "beta": lambda: round(rng.uniform(0.001, 0.5), 4)})
+    else:
+        pool["ccov"] = lambda: round(rng.uniform(0.01, 0.5), 3)
+    keys = rng.sample(sorted(pool), rng.randint(1, 3))
+    return {k: pool[k]() for k in keys}
+
+
+def gen_structured(thorough, rng, mult, lmax):
+    """histories aimed at state carried between rounds"""
     for i in range((12 if thorough else 4) * mult):
         dim = rng.randint(2, 4)
         # success streaks: psucc crosses pthresh while the parent is being replaced
@@ -1072,18 +1142,32 @@ def generate(tier, rng, mult):
         yield {"k": "mo", "dim": dim, "mu": mu, "lam": rng.randint(mu + 2, lmax), "obj": rng.choice(["bisphere", "zdt"]),
                "x0": [rnd_vec(rng, dim, 0.0, 1.0) for _ in range(mu)], "sigma": rng.choice([0.3, 0.7]),
                "rounds": rng.randint(3, 20), "seed": rng.randrange(1 << 30)}
-    # -- histories
+        # plain Fitness (no constraint_violation attribute) with some offspring left unevaluated
+        yield {"k": "act", "dim": dim, "lam": rng.randint(2, 5), "obj": "sphere",
+               "x0": [round(rng.uniform(1.0, 3.0), 3) for _ in range(dim)], "sigma": 0.5, "steps": [0.0] * dim, "cons": [],
+               "parent_fit": rng.random() < 0.5, "confit": False, "skip": 0.4, "rounds": rng.randint(5, 30),
+               "seed": rng.randrange(1 << 30), "shuffle": rng.random() < 0.5, "kargs": rand_kargs(rng, "act")}
+        # MO built with the default mu (= len(population)) and with more initial individuals than mu
+        npar = rng.randint(2, 5)
+        yield {"k": "mo", "dim": dim, "mu": npar, "mu_given": False, "lam": rng.choice([npar, rng.randint(1, lmax)]),
+               "obj": rng.choice(["bisphere", "bistep"]), "x0": [rnd_vec(rng, dim, -1.5, 1.5) for _ in range(npar)],
+               "sigma": 0.5, "rounds": rng.randint(2, 15), "seed": rng.randrange(1 << 30), "kargs": rand_kargs(rng, "mo")}
+        mu = rng.randint(1, 3)
+        yield {"k": "mo", "dim": dim, "mu": mu, "lam": rng.choice([mu, rng.randint(1, lmax)]),
+               "obj": rng.choice(["bisphere", "zdt"]), "x0": [rnd_vec(rng, dim, 0.0, 1.0) for _ in range(mu + rng.randint(1, 3))],
+               "sigma": 0.5, "rounds": rng.randint(2, 15), "seed": rng.randrange(1 << 30)}
+
+
+def gen_histories(thorough, rng, mult, dmax, lmax, mumax):
     nhist = (1200 if thorough else 220) * mult
     for i in range(nhist):
         dim = rng.randint(2, dmax)
         # (1+lambda)
         lam = rng.choice([1, 1, 2, 3, rng.randint(1, lmax)])
         obj = rng.choice(["sphere", "sphere", "ellipsoid", "step", "negsphere"])
-        d = {"k": "op", "dim": dim, "lam": lam, "obj": obj, "x0": rnd_vec(rng, dim), "sigma": rng.choice([0.05, 0.5, 1.0, 5.0]),
-             "rounds": pick_rounds(rng, thorough), "seed": rng.randrange(1 << 30), "shuffle": rng.random() < 0.5}
-        if rng.random() < 0.25:
-            d["kargs"] = {"pthresh": rng.choice([0.0, 0.2, 1.1])}
-        yield d
+        yield {"k": "op", "dim": dim, "lam": lam, "obj": obj, "x0": rnd_vec(rng, dim), "sigma": rng.choice([0.05, 0.5, 1.0, 5.0]),
+               "rounds": pick_rounds(rng, thorough), "seed": rng.randrange(1 << 30), "shuffle": rng.random() < 0.5,
+               "kargs": rand_kargs(rng, "op")}
         # MO
         mu = rng.randint(1, mumax)
         lam = mu if rng.random() < 0.45 else rng.randint(1, lmax)
@@ -1091,13 +1175,10 @@ def generate(tier, rng, mult):
         npar = mu if rng.random() < 0.8 else rng.randint(1, mu)      # fewer initial parents than mu
         if lam == mu and npar != mu:
             npar = mu
-        d = {"k": "mo", "dim": dim, "mu": mu, "lam": lam, "obj": obj,
-             "x0": [rnd_vec(rng, dim, -1.5, 1.5) if obj != "zdt" else rnd_vec(rng, dim, 0.0, 1.0) for _ in range(npar)],
-             "sigma": rng.choice([0.1, 0.5, 1.0]), "rounds": pick_rounds(rng, thorough, long_ok=(mu * dim <= 24 or thorough)),
-             "seed": rng.randrange(1 << 30)}
-        if rng.random() < 0.2:
-            d["kargs"] = {"pthresh": rng.choice([0.0, 0.3, 1.1])}
-        yield d
+        yield {"k": "mo", "dim": dim, "mu": mu, "lam": lam, "obj": obj,
+               "x0": [rnd_vec(rng, dim, -1.5, 1.5) if obj != "zdt" else rnd_vec(rng, dim, 0.0, 1.0) for _ in range(npar)],
+               "sigma": rng.choice([0.1, 0.5, 1.0]), "rounds": pick_rounds(rng, thorough, long_ok=(mu * dim <= 24 or thorough)),
+               "seed": rng.randrange(1 << 30), "kargs": rand_kargs(rng, "mo")}
         # active
         lam = rng.choice([1, 1, 2, rng.randint(1, lmax)])
         ncons = rng.choice([0, 0, 1, 2, 3])
@@ -1113,11 +1194,108 @@ def generate(tier, rng, mult):
             for c in rng.sample(range(dim), rng.randint(1, dim)):
                 steps[c] = rng.choice([0.1, 0.5, 1.0, 4.0])
         if any(steps):
-            x0 = [(round(v / s) * s if s > 0 else v) for v, s in zip(x0, steps)]
+            x0 = [(round(v / s_) * s_ if s_ > 0 else v) for v, s_ in zip(x0, steps)]
         yield {"k": "act", "dim": dim, "lam": lam, "obj": rng.choice(["sphere", "sphere", "ellipsoid", "step"]), "x0": x0,
                "sigma": rng.choice([0.2, 0.5, 2.0]), "steps": steps, "cons": cons, "parent_fit": rng.random() < 0.4,
                "confit": rng.random() < 0.3, "rounds": pick_rounds(rng, thorough), "seed": rng.randrange(1 << 30),
-               "shuffle": rng.random() < 0.5}
+               "shuffle": rng.random() < 0.5, "kargs": rand_kargs(rng, "act")}
+
+
+def gen_actsing(thorough, rng, mult):
+    """constraint updates whose A' is exactly singular (beta = 1, |y_i| equal, dim a power of two): inv raises"""
+    for n in (2, 4):
+        for signs in itertools.product((-1.0, 1.0), repeat=n):
+            if n == 4 and not thorough and rng.random() < 0.5:
+                continue
+            for parent_fit in (False, True):
+                x0 = [1.0] * n
+                yield {"k": "actsing", "dim": n, "beta": 1.0, "x0": x0, "parent_fit": parent_fit,
+                       "ys": [list(signs)], "flags": [[True]]}
+                # two constraints, one violated; and a valid sibling evaluated in the same update
+                yield {"k": "actsing", "dim": n, "beta": 1.0, "x0": x0, "parent_fit": parent_fit,
+                       "ys": [[0.5] * n, list(signs)], "flags": [[False, False], [True, False]]}
+    for _ in range((60 if thorough else 12) * mult):     # regular (invertible) counterparts, random beta
+        n = rng.randint(2, 4)
+        yield {"k": "actsing", "dim": n, "beta": round(rng.uniform(0.05, 0.9), 3), "x0": rnd_vec(rng, n, 1.0, 2.0),
+               "parent_fit": rng.random() < 0.5, "ys": [rnd_vec(rng, n, -1.5, 1.5)], "flags": [[True]]}
+
+
+def gen_elit(thorough, rng):
+    # exhaustive elitism histories over fitness values {0,1,2}
+    shapes = [(1, 3), (2, 2), (3, 1)] + ([(3, 2), (2, 3), (1, 5)] if thorough else [])
+    for lam, nr in shapes:
+        for weight in (-1, 1):
+            for p0 in (0, 1, 2):
+                for flat in itertools.product((0, 1, 2), repeat=lam * nr):
+                    if not thorough and lam * nr > 4 and rng.random() < 0.5:
+                        continue
+                    yield {"k": "elit", "lam": lam, "weight": weight, "p0": p0,
+                           "hist": [list(flat[i * lam:(i + 1) * lam]) for i in range(nr)]}
+
+
+def gen_r1(thorough, rng, mult, dmax):
+    # direct rank-one updates: every sign pattern in dims 2,3; tiny / zero vectors
+    for n in (2, 3):
+        for signs in itertools.product((-1.0, 0.0, 1.0), repeat=n):
+            for scale in (1.0, 1e-3, 1e-19, 1e-21, 1e-25):
+                for (alpha, beta) in ((0.8, 0.2), (1.05, 0.2)):
+                    yield {"k": "r1", "dim": n, "w": [s_ * (1 + 0.5 * i) for i, s_ in enumerate(signs)], "scale": scale,
+                           "alpha": alpha, "beta": beta, "mix": 2, "seed": rng.randrange(1 << 30)}
+    for _ in range((300 if thorough else 60) * mult):
+        n = rng.randint(2, dmax)
+        w = [rng.choice((-1, 1)) * rng.uniform(0.1, 2.0) if rng.random() < 0.85 else 0.0 for _ in range(n)]
+        if rng.random() < 0.3:
+            w = [-abs(x) for x in w]
+        ccov = 2.0 / (n * n + 6.0)
+        yield {"k": "r1", "dim": n, "w": w, "scale": rng.choice((1.0, 1.0, 1e-6, 1e-12, 3e-20, 1e-22)),
+               "alpha": rng.choice((1 - ccov, 1 - ccov + 0.75)), "beta": ccov, "mix": rng.randint(0, 4),
+               "seed": rng.randrange(1 << 30)}
+
+
+def gen_mosel(thorough, rng, mult):
+    # direct _select on small grids (ties, duplicates, dominated points), every mu
+    grid = [(a, b) for a in range(3) for b in range(3)]
+    for n in (2, 3, 4):
+        combos = list(itertools.product(grid, repeat=n))
+        if n == 4 and not thorough:
+            combos = rng.sample(combos, 400)
+        elif n == 3 and not thorough:
+            combos = rng.sample(combos, 300)
+        for pts in combos:
+            for mu in range(1, n + 1):
+                yield {"k": "mosel", "mu": mu, "pts": [list(p) for p in pts]}
+    for _ in range((1500 if thorough else 150) * mult):
+        n = rng.randint(3, 14)
+        style = rng.random()
+        if style < 0.4:      # one big non-dominated front
+            xs = sorted(rng.sample(range(40), n))
+            pts = [[x / 4.0, (40 - x) / 4.0 + rng.choice((0, 0, 0.25))] for x in xs]
+        elif style < 0.7:    # layered fronts
+            pts = [[rng.randint(0, 5) / 2.0, rng.randint(0, 5) / 2.0] for _ in range(n)]
+        else:
+            pts = [[round(rng.uniform(0, 3), 2), round(rng.uniform(0, 3), 2)] for _ in range(n)]
+        if rng.random() < 0.3:
+            pts[rng.randrange(n)] = list(pts[rng.randrange(n)])     # duplicate
+        yield {"k": "mosel", "mu": rng.randint(1, n + 1), "pts": pts}
+
+
+def generate(tier, rng, mult):
+    """Streams in order of how much of the statement they carry (the time budget truncates from the end):
+    whole histories of the three strategies first, then the direct single-call streams."""
+    thorough = tier == "thorough"
+    dmax, lmax, mumax = (10, 20, 10) if thorough else (6, 8, 6)
+    for d in gen_structured(thorough, rng, mult, lmax):
+        yield d
+    for d in gen_actsing(thorough, rng, mult):
+        yield d
+    for d in gen_histories(thorough, rng, mult, dmax, lmax, mumax):
+        yield d
+    for d in gen_r1(thorough, rng, mult, dmax):
+        yield d
+    for d in gen_elit(thorough, rng):
+        yield d
+    for d in gen_mosel(thorough, rng, mult):
+        yield d
 
 
 def shrink(d):
